@@ -118,6 +118,13 @@ func zvC34RServerHandshakeAgain(c *Conn) error {
 	copy(prev[:12], c.handshakeLog.ClientFinished.VerifyData)
 	copy(prev[12:], c.handshakeLog.ServerFinished.VerifyData)
 
+	// readClientHello stores the negotiated version in the Conn and in both
+	// halves; order these stores after the records written so far by other
+	// goroutines (the client's handshake gets the same ordering from sending its
+	// ClientHello first).
+	c.out.Lock()
+	c.out.Unlock()
+
 	clientHello, err := c.readClientHello()
 	if err != nil {
 		return err
